@@ -28,6 +28,10 @@ def instances(tier, seed):
     for pat in ['CH->CF', 'CH->NOO', 'CH->nothing', 'CH->C', 'CH->full']:
         add(f"atoms:{pat}:M2", pattern=pat, N=5, M=2, cost=20)
     add("atoms:CH->CF-offset:M1", pattern='CH->CF-offset', N=3, M=1, cost=5)
+    add("atoms:CH->CF-extra-columns:M1", pattern='CH->CF-extra-columns', N=3, M=1, cost=5)
+    add("atoms:CH->CF-extra-columns:M2:structure-has-other-columns", pattern='CH->CF-extra-columns', N=4, M=2, extra={'atom': ['xa'], 'bond': ['o']}, terms={'bond': 1},
+        s_rows={'bond': 2}, cost=60)
+    add("atoms:CH->CF-ff-labels:M2", pattern='CH->CF-ff-labels', N=5, M=2, cost=20)
     add("atoms:CH->CF:M2:replace_all", pattern='CH->CF', N=5, M=2, replace_all=True, cost=20)
     add("atoms:CH->CH-moved:M1", pattern='CH->CH-moved', N=3, M=1, cost=5)
     add("atoms:CHH->CHH:M1", pattern='CHH->CHH', N=4, M=1, cost=10)
@@ -39,6 +43,7 @@ def instances(tier, seed):
     # end to end (real find, no stub) under a symbolic translation: counts, bystanders, inserted atoms in the matched frame
     add("e2e:S2:chiral4->big:triclinic", family='e2e', struct='S2', repl='chiral4->big', axes=[1], other=(0.5, 0, 0.9), charges=True, cost=60)
     add("e2e:S5:pair->FO:triclinic", family='e2e', struct='S5', repl='pair->FO', axes=[0], other=(0, 0.8, 0.3), charges=True, cost=60)
+    add("e2e:S2:chiral4->CHSP:fraction0.9:triclinic", family='e2e', struct='S2', repl='chiral4->CHSP', axes=[2], other=(0.3, 0.2, 0), fraction=0.9, charges=True, cost=60)
     add("e2e:S1:chiral4->CHSP", family='e2e', struct='S1', repl='chiral4->CHSP', axes=[2], other=(0.9, 0.1, 0), charges=True, cost=30)
     add("atoms:CH->CF:M1:fraction", pattern='CH->CF', N=3, M=1, fraction='sym', cost=5)
     if tier == 'thorough':
